@@ -477,7 +477,7 @@ qb_ipc_us_recv_at_most(struct qb_ipc_one_way *one_way,
 
 retry_peek:
 	result = recv(one_way->u.us.sock, data,
-		      sizeof(struct qb_ipc_request_header),
+		      QB_MIN(len, sizeof(struct qb_ipc_request_header)),
 		      MSG_NOSIGNAL | MSG_PEEK);
 
 	if (result == -1) {
@@ -510,6 +510,10 @@ retry_peek:
 		struct qb_ipc_request_header *hdr = NULL;
 		hdr = (struct qb_ipc_request_header *)msg;
 		to_recv = hdr->size;
+		if (to_recv < 0 || to_recv > len) {
+			/* never receive more than the caller's buffer holds */
+			to_recv = len;
+		}
 	}
 
 	result = recv(one_way->u.us.sock, data, to_recv,
